@@ -33,6 +33,7 @@ from mapproxy.response import Response
 from mapproxy.exception import RequestError
 from mapproxy.util.coverage import load_limited_to_all
 from mapproxy.util.ext.odict import odict
+from mapproxy.util.escape import escape_html
 
 from mapproxy.template import template_loader, bunch
 import logging
@@ -223,7 +224,7 @@ class WMTSServer(Server):
 
     def _service_md(self, tile_request):
         md = dict(self.md)
-        md['url'] = tile_request.url
+        md['url'] = escape_html(tile_request.url)
         return md
 
 
